@@ -173,6 +173,10 @@ def run(scn, clauses=None):
             to = op.get('to', -1)
             sws = op.get('sws', -1)
             exact = api == 'expect_exact'
+            if isinstance(to, (int, float)) and to < 0 and to != -1:
+                # a negative timeout is outside what the statements define (asyncio gives up before the transport's reader is
+                # even installed, which then reads on while nobody waits): what the object does afterwards is not judged
+                state['cancelled_from_outside'] = True
             pre = prepared.pop(k, None)
             pl = pre[1] if pre is not None else r.build_plist(op['pats'], exact)
             c0, t0 = len(child.chunks), w.now
@@ -205,6 +209,7 @@ def run(scn, clauses=None):
                             r.w.probe('cancellation_tie')
                         r.snap_call('exact' if exact else 'list', pl, to, sws, c0, t0, oc, True)
                         rec['out'] = 'cancel'
+                        state['cancelled_from_outside'] = True
                         rec['t1'] = w.now
                         r.ops.append(rec)
                         r.w.probe('awaited_call_cancelled_from_outside')
@@ -242,8 +247,22 @@ def run(scn, clauses=None):
                 for kk in prep_plan.get(k, []):
                     if not child.closed:
                         prepared[kk] = make_awaitable(scn['ops'][kk])
-                if child.closed and not (op['op'] == 'expect' and op.get('async')):
-                    continue     # asyncio closed the object at EOF: blocking calls are out of scope
+                apt_ = getattr(child, 'async_pw_transport', None)
+                if apt_ and not state.get('cancelled_from_outside'):
+                    tr_ = apt_[1]
+                    try:
+                        if tr_.is_reading() and not tr_.is_closing():
+                            # the last awaited call is over, yet its transport is still installed as a reader: output and
+                            # the end of the stream are now taken behind the caller's back (asyncio closes the object at EOF)
+                            state['read_idle'] = True
+                            r.w.probe('transport_reading_while_no_call_is_outstanding')
+                    except Exception:
+                        pass
+                if child.closed and not (op['op'] == 'expect' and op.get('async')) and \
+                        not (state.get('read_idle') and not state.get('cancelled_from_outside')):
+                    # asyncio closed the object at EOF: blocking calls are out of scope -- unless the transport had been
+                    # left reading while no call was outstanding (then the blocking call below shows what that does)
+                    continue
                 if op['op'] == 'expect' and op.get('async'):
                     rec = await acall(k, op)
                 elif op['op'] == 'gap' and op.get('async'):
